@@ -30,6 +30,13 @@ structure St where
   element : Option Nat := none
   cnt : Cnt
   fuelOut : Bool := false
+  advModel : Bool := true                 -- InterleavedModelVisitor._advance_model
+  deriving Repr, Inhabited
+
+/-- XSD 1.1 open content of the complex type: mode and the arena id of its wildcard -/
+structure OC where
+  mode : OpenMode := .none
+  wild : Nat := 0
   deriving Repr, Inhabited
 
 section
@@ -306,6 +313,42 @@ def visitorMatch (s : St) (q : QN) : Bool :=
   | none => false
   | some e => if (A.node e).hi == some 0 then false else leafMatches A (some s.cnt) e q
 
+/-- `element is self.wildcard` -/
+def onWild (oc : OC) (s : St) : Bool := oc.mode != .none && s.element == some oc.wild
+
+/-- constructors / `clear` of the open-content visitors (models.py:744-757, 797-807): an ended
+    model waits on the open-content wildcard. -/
+def ocFix (oc : OC) (s : St) : St :=
+  if oc.mode != .none && s.element.isNone then { s with element := some oc.wild, advModel := true }
+  else { s with advModel := true }
+
+/-- `match_element` of Interleaved/Suffixed/plain visitor (models.py:258, 759-775).  Returns
+    (matched, state): the interleaved visitor records that the match was taken by the wildcard. -/
+def visitorMatchO (oc : OC) (s : St) (q : QN) : Bool × St :=
+  let x := visitorMatch A s q
+  if oc.mode != .interleave then (x, s)
+  else if x || onWild oc s then (x, s)
+  else if !leafMatches A (some s.cnt) oc.wild q then (false, s)
+  else if (iterElements A s.group).any fun e => leafMatches A (some s.cnt) e q && !isOver A s.cnt e
+    then (false, s)
+  else (true, { s with advModel := false })     -- processContents ≠ strict assumed (harness uses lax)
+
+/-- `advance` of the open-content visitors (models.py:777-787, 809-817). -/
+def advanceO (oc : OC) (s : St) (mtch : Bool) : Step :=
+  match oc.mode with
+  | .none => advance A s mtch
+  | .interleave =>
+    if onWild oc s then .done (if mtch then s else { s with element := none }) []
+    else if !s.advModel then .done { s with advModel := true } []
+    else match advance A s mtch with
+      | .done s' e => .done (if s'.element.isNone then { s' with element := some oc.wild } else s') e
+      | .ended s' e => .ended (if s'.element.isNone then { s' with element := some oc.wild } else s') e
+  | .suffix =>
+    if onWild oc s then .done (if mtch then s else { s with element := none }) []
+    else match advance A s mtch with
+      | .done s' e => .done (if s'.element.isNone then { s' with element := some oc.wild } else s') e
+      | .ended s' e => .ended (if s'.element.isNone then { s' with element := some oc.wild } else s') e
+
 /-- model-less `XsdGroup.match_element` (groups.py:943): first element of the root matching. -/
 def modelLessMatch (root : Nat) (q : QN) : Option Nat :=
   (iterElements A root).find? fun e => leafMatches A none e q
@@ -323,7 +366,7 @@ structure LoopSt where
   deriving Inhabited
 
 /-- `while model.element is not None:` for one child (groups.py:1021-1049). -/
-def childStep (n root : Nat) (index : Nat) (q : QN) : Nat → LoopSt → LoopSt
+def childStep (oc : OC) (n root : Nat) (index : Nat) (q : QN) : Nat → LoopSt → LoopSt
   | 0, ls => { ls with s := { ls.s with fuelOut := true } }
   | fuel + 1, ls =>
     match ls.s.element with
@@ -333,30 +376,31 @@ def childStep (n root : Nat) (index : Nat) (q : QN) : Nat → LoopSt → LoopSt
       | none => { ls with errors := ls.errors ++ [⟨index, root, 0⟩], broken := true }
       | some e => if ls.broken then ls else { ls with errors := ls.errors ++ [⟨index, e, 0⟩], broken := true }
     | some _ =>
-      if visitorMatch A ls.s q then
-        match advance A ls.s true with
+      let (matched, sm) := visitorMatchO A oc ls.s q
+      if matched then
+        match advanceO A oc sm true with
         | .done s errs | .ended s errs =>
           { ls with s, errors := ls.errors ++ errs.map fun e => ⟨index, e.particle, e.occurs⟩ }
       else
-        match advance A ls.s false with
+        match advanceO A oc sm false with
         | .done s errs | .ended s errs =>
           match errs with
-          | e :: _ => { ls with s := clear n root s, errors := ls.errors ++ [⟨index, e.particle, e.occurs⟩],
+          | e :: _ => { ls with s := ocFix oc (clear n root s), errors := ls.errors ++ [⟨index, e.particle, e.occurs⟩],
                                 broken := true }
-          | [] => childStep n root index q fuel { ls with s }
+          | [] => childStep oc n root index q fuel { ls with s }
 
 /-- `model.stop()` consumed up to its first error (groups.py:1078-1082). -/
-def stopFirst : Nat → St → Option Err × Bool
+def stopFirst (oc : OC) : Nat → St → Option Err × Bool
   | 0, _ => (none, true)
   | fuel + 1, s =>
     match s.element with
     | none => (none, false)
     | some _ =>
-      match advance A s false with
+      match advanceO A oc s false with
       | .done s' errs | .ended s' errs =>
         match errs with
         | e :: _ => (some e, s'.fuelOut)
-        | [] => if s'.fuelOut then (none, true) else stopFirst fuel s'
+        | [] => if s'.fuelOut then (none, true) else stopFirst oc fuel s'
 
 structure Verdict where
   errors : List ChildErr
@@ -364,21 +408,22 @@ structure Verdict where
   deriving Repr, Inhabited
 
 /-- The child loop of `XsdGroup.raw_decode` reduced to the list of children errors. -/
-def childErrors (n root : Nat) (w : List QN) : Verdict :=
-  let s0 := init A n root
+def childErrors (n root : Nat) (w : List QN) (oc : OC := {}) : Verdict :=
+  let s0 := ocFix oc (init A n root)
   let emptyChoice := (A.node root).kind == .choice && (A.node root).content.isEmpty && (A.node root).lo != 0
   if emptyChoice then ⟨[⟨0, root, 0⟩], false⟩ else
   let fuelC := 4 * A.size + 8
-  let ls := w.zipIdx.foldl (fun ls (q, i) => childStep A n root i q fuelC ls) { s := s0 }
+  let ls := w.zipIdx.foldl (fun ls (q, i) => childStep A oc n root i q fuelC ls) { s := s0 }
   let (tail, fo) := match ls.s.element with
     | none => ([], false)
-    | some _ => match stopFirst A fuelC ls.s with
+    | some _ => match stopFirst A oc fuelC ls.s with
       | (some e, fo) => ([ChildErr.mk w.length e.particle e.occurs], fo)
       | (none, fo) => ([], fo)
   ⟨ls.errors ++ tail, ls.s.fuelOut || fo⟩
 
 /-- the implementation's verdict on a child sequence -/
-def verdict (n root : Nat) (w : List QN) : Bool := (childErrors A n root w).errors.isEmpty
+def verdict (n root : Nat) (w : List QN) (oc : OC := {}) : Bool :=
+  (childErrors A n root w oc).errors.isEmpty
 
 end
 end XsVerif.CM
